@@ -1,6 +1,7 @@
 //! Verification harness for facebook/akd: runs the implementation (from /repo's working tree) on
 //! generated inputs and prints canonical traces for the correspondence with the Coq model, plus
 //! the result of per-property direct oracles.
+mod advdir;
 mod audits;
 mod dirs;
 mod faultdb;
@@ -63,8 +64,8 @@ fn main() {
             }
             writeln!(out, "SUMMARY cases={} sequences={} oracle_failures={}", o.cases, o.seqs, o.fails.len()).unwrap();
         }
-        "dirs" => {
-            let cx = dirs::run(arg(&args, 2, 1u64), arg(&args, 3, 0u32));
+        "dirs" | "advdir" => {
+            let cx = if cmd == "dirs" { dirs::run(arg(&args, 2, 1u64), arg(&args, 3, 0u32)) } else { advdir::run(arg(&args, 2, 1u64), arg(&args, 3, 0u32)) };
             out.write_all(cx.out.as_bytes()).unwrap();
             for f in &cx.fails {
                 writeln!(out, "ORACLE-FAIL {}", f).unwrap();
